@@ -31,8 +31,8 @@ func checkC07(c *Check) {
 			continue
 		}
 		for _, ci := range callsIn(fn) {
-			if staticCallee(ci.Common()) != ing {
-				continue
+			if staticCallee(ci.Common()) != ing && !(ci.Common().IsInvoke() && ing.Object() != nil && isCalleeObj(ci.Common(), ing.Object())) {
+				continue // (also reached through an interface the ingester implements)
 			}
 			ncall++
 			for _, a := range ci.Common().Args {
